@@ -37,14 +37,14 @@ var Prop = &engine.Prop{
 		"a quiescent goroutine snapshot of a timer-free execution is a fixed point; 'eventually returns' is judged as 'not parked at a quiescent fixed point'",
 		"SyncQueue.Push after Close is silently dropped, so pushes racing with Close are 'maybe accepted'",
 	},
-	ShardsQuick: 8, ShardsThorough: 16,
+	ShardsQuick: 8, ShardsThorough: 48,
 	Setup: func(c *engine.Ctx) { Q = engine.NewQuiescer() },
 	Kinds: []engine.Kind{
-		{Name: "parked", Quick: 12000, Thorough: 400000, Fn: parkedCase},
-		{Name: "priq-seq", Quick: 20000, Thorough: 600000, Fn: priqSeqCase},
-		{Name: "priq-stress", Quick: 24, Thorough: 600, Repeat: 20, Fn: priqStressCase},
-		{Name: "priq-race", Quick: 160, Thorough: 4800, Repeat: 20, Fn: priqRaceCase},
-		{Name: "cond-stress", Quick: 24, Thorough: 600, Repeat: 20, Fn: condStressCase},
+		{Name: "parked", Quick: 12000, Thorough: 1200000, Fn: parkedCase},
+		{Name: "priq-seq", Quick: 20000, Thorough: 1800000, Fn: priqSeqCase},
+		{Name: "priq-stress", Quick: 24, Thorough: 1800, Repeat: 20, Fn: priqStressCase},
+		{Name: "priq-race", Quick: 160, Thorough: 14400, Repeat: 20, Fn: priqRaceCase},
+		{Name: "cond-stress", Quick: 24, Thorough: 1800, Repeat: 20, Fn: condStressCase},
 	},
 	Floors: map[string]int64{
 		"parked_consumer_observations": 1000,
